@@ -32,7 +32,9 @@ type kase struct {
 	Rev     bool    `json:"rev,omitempty"` // the copy is reverse-complemented
 	// Order: 0 one Align call (the plant's strand) on a fresh aligner; 1 the other strand is searched
 	// first on the same aligner value (forward then complement is what cmd/pals does), and its hits
-	// are held to the soundness oracle as well
+	// are held to the soundness oracle as well; 2 a second Optimise call that is REJECTED (12, 0.5) comes
+	// between BuildIndex and Align (it must leave the accepted settings alone); 3 the hits judged are those
+	// of AlignFrom(Trapezoids(), strand) called after Align on the same aligner
 	Order int `json:"order,omitempty"`
 }
 
@@ -254,7 +256,21 @@ func (r *runner) align(k kase, target, query []byte, comp bool) (hits, other dp.
 		}
 		other = append(dp.Hits{}, other...)
 	}
+	if k.Order == 2 {
+		if p.Optimise(12, 0.5) == nil {
+			// accepted after all: go back to the settings of the case
+			if err := p.Optimise(k.MinLen, k.MinId); err != nil {
+				return nil, nil, fmt.Errorf("Optimise: %v", err)
+			}
+			if err := p.BuildIndex(); err != nil {
+				return nil, nil, fmt.Errorf("BuildIndex: %v", err)
+			}
+		}
+	}
 	hits, err = p.Align(comp)
+	if k.Order == 3 && err == nil {
+		hits, err = p.AlignFrom(p.Trapezoids(), comp)
+	}
 	return hits, other, err
 }
 
@@ -379,7 +395,10 @@ func check(c *enum.Ctx, r *runner, k kase) {
 		if 2*coreLen < 3*k.MinLen {
 			// close to the minimum length every case is its own class, so that the recorded finding
 			// (known_findings.json: the trapezoid bisection of the dp kernel) covers listed inputs only
-			class = "recall/near-minimum-length/" + mode + "/" + strings.Fields(k.Variant)[0] + "/" + enum.InputDigest(k)
+			// (the digest is that of the input - sequences and settings - whatever the order of calls)
+			base := k
+			base.Order = 0
+			class = "recall/near-minimum-length/" + mode + "/" + strings.Fields(k.Variant)[0] + "/" + enum.InputDigest(base)
 			c.Add(fmt.Sprintf("near_minimum_length_misses/min%d-%.2f/bg%d/L+%d", k.MinLen, k.MinId, k.BgT, k.L-k.MinLen), 1)
 		}
 		c.Fail(class, k, "repeat of length %d (identity %.3f, min length %d, min identity %.2f) planted at target %v / query %v (strand coordinates) is not recovered; hits %+v", k.L, identity, k.MinLen, k.MinId, pt, pq, hits)
@@ -388,7 +407,7 @@ func check(c *enum.Ctx, r *runner, k kase) {
 
 func run(c *enum.Ctx) {
 	pals.MaxKmerLen = 8
-	c.Rule("fixed backgrounds generated from constants (xorshift with constant seeds; 2 pair backgrounds of 1500/1300 letters, thorough 4 incl. one low-complexity; self: one sequence of 1700); (minHitLen,minId) in {(30,0.9),(50,0.9),(50,0.94),(80,0.85)} as accepted by Optimise with MaxKmerLen lowered to 8; a repeat of length L in {minHitLen+1, +2, +5, +10, 1.5 minHitLen, 3 minHitLen} planted at target positions {0, three interior, end} x 40 consecutive query positions (one full tube period) plus both query ends; variants: exact, a substitution at every third position, 2 and 3 substitutions, a deletion and an insertion of length 1-2 at every tenth position, reverse-complemented copies (complement-strand search), self comparison (also under the permissive settings (80,0.8),(100,0.8),(150,0.85) on sequences of 2000/3500 (5000) letters, where the filter is noisy next to the main diagonal, and at 64 consecutive sequence lengths = every position of the tube grid relative to the main diagonal); a query longer than the target (900 vs 1500) with copies before, around and beyond the length of the target; every reverse-complement case and every exact/sub2/sub3 case again as the second Align call on an aligner value that has already searched the other strand (both result sets judged); soundness oracle on EVERY hit of every run; recall oracle for identity >= minId+0.05 and a core (the repeat without edits so close to an end that leaving them out scores at least as well: substitutions with < 5, indels of b with < 3b+2 letters beyond them) longer than minHitLen in both sequences; a hit must overlap half of the core in both; non-trivial = every run (each contains a planted repeat)")
+	c.Rule("fixed backgrounds generated from constants (xorshift with constant seeds; 2 pair backgrounds of 1500/1300 letters, thorough 4 incl. one low-complexity; self: one sequence of 1700); (minHitLen,minId) in {(30,0.9),(50,0.9),(50,0.94),(80,0.85)} as accepted by Optimise with MaxKmerLen lowered to 8; a repeat of length L in {minHitLen+1, +2, +5, +10, 1.5 minHitLen, 3 minHitLen} planted at target positions {0, three interior, end} x 40 consecutive query positions (one full tube period) plus both query ends; variants: exact, a substitution at every third position, 2 and 3 substitutions, a deletion and an insertion of length 1-2 at every tenth position, reverse-complemented copies (complement-strand search), self comparison (also under the permissive settings (80,0.8),(100,0.8),(150,0.85) on sequences of 2000/3500 (5000) letters, where the filter is noisy next to the main diagonal, and at 64 consecutive sequence lengths = every position of the tube grid relative to the main diagonal); a query longer than the target (900 vs 1500) with copies before, around and beyond the length of the target; every reverse-complement case and every exact/sub2/sub3 case again as the second Align call on an aligner value that has already searched the other strand (both result sets judged), after a second, rejected Optimise(12, 0.5), and through AlignFrom(Trapezoids()) after Align (quick: alternating); soundness oracle on EVERY hit of every run; recall oracle for identity >= minId+0.05 and a core (the repeat without edits so close to an end that leaving them out scores at least as well: substitutions with < 5, indels of b with < 3b+2 letters beyond them) longer than minHitLen in both sequences; a hit must overlap half of the core in both; non-trivial = every run (each contains a planted repeat)")
 	c.Assume("pals.MaxKmerLen is lowered to 8 by the harness (small index)", "identity comfortably above the threshold = at least 0.05 above")
 	work := os.Getenv("VERIF_WORK")
 	if work == "" {
@@ -534,6 +553,22 @@ func run(c *enum.Ctx) {
 	for _, k := range cases[:len(cases):len(cases)] {
 		if k.Rev || k.Variant == "exact" || k.Variant == "sub2" || k.Variant == "sub3" {
 			k.Order = 1
+			cases = append(cases, k)
+		}
+	}
+	// ... after a rejected re-optimisation, and through AlignFrom seeded with the trapezoids of Align
+	// (quick: alternating over the exact / three-substitution cases)
+	n23 := 0
+	for _, k := range cases[:len(cases):len(cases)] {
+		if k.Order != 0 || !(k.Variant == "exact" || k.Variant == "sub3" || k.Rev) {
+			continue
+		}
+		n23++
+		for _, o := range []int{2, 3} {
+			if c.Quick && n23%2 != o%2 {
+				continue
+			}
+			k.Order = o
 			cases = append(cases, k)
 		}
 	}
